@@ -66,7 +66,7 @@ impl RequestHandler<Completion> for CompletionHandler {
 
                 let mut offsets = codegen.source_map().line_col_to_offsets(
                     &tree.code_map,
-                    path.to_str().unwrap(),
+                    &path.to_string_lossy(),
                     source_line,
                     source_column,
                 );
@@ -75,7 +75,7 @@ impl RequestHandler<Completion> for CompletionHandler {
                 if offsets.is_empty() {
                     offsets = codegen.source_map().line_col_to_offsets(
                         &tree.code_map,
-                        path.to_str().unwrap(),
+                        &path.to_string_lossy(),
                         source_line,
                         None,
                     );
